@@ -88,6 +88,16 @@ CHECKS = {
          "DESIGN.md section 4 (C17)",
          "timestamps hours away from the no_gc_days boundary (the code reads the wall clock); record size at most half the data-file limit",
          "inventory + hook-log monitor with reference range oracle; hook-based overlap detector with park/release schedules; race detector"),
+ "C06": ("fault_enumeration",
+         "Every file-system mutation boundary of generated histories becomes a crash state: a hook copies the bucket directory before and after every hooked mutation under one mutex (plus torn variants of every data write at each 256-byte boundary and 3 unaligned cuts); a fresh process opens each snapshot and must serve, per key, exactly the newest intact record an independent scanner finds in the snapshot's data files, or refuse to start only when a data file ends in a partial record.",
+         "DESIGN.md section 4 (C06)",
+         "crash model SIGKILL = prefix of completed syscalls (no reordering, no power loss); writes to *.tmp files are not hooked; Go QuickLZ decoder used to read server-compressed records from disk",
+         "crash-point enumeration by directory snapshots at hooked FS mutations + recovery in a fresh process + reference-scanner oracle"),
+ "C07": ("fault_enumeration",
+         "Same snapshot machinery around one GC pass (after every relocated record, truncate, source/hint removal, hint tmp create/rename, nextgc.txt, collision file; torn variants of relocated-record writes) over generated layouts and legal ranges (destination earlier file / in place / fresh); a fresh process on every snapshot must serve exactly the pre-GC model.",
+         "DESIGN.md section 4 (C07)",
+         "as C06; no client writes during the pass",
+         "crash-point enumeration inside GC + recovery in a fresh process + pre-GC reference model oracle"),
 }
 
 NOT_YET = {
